@@ -20,3 +20,8 @@ PROP = {
          "finding": "C14-resume-without-pause-blocks", "facets": [], "shards": (1, 1)},
     ],
 }
+
+import os, importlib.util
+_spec = importlib.util.spec_from_file_location("c01", os.path.join(os.path.dirname(os.path.abspath(__file__)), "C01.py"))
+_m = importlib.util.module_from_spec(_spec); _spec.loader.exec_module(_m)
+PROP["units"].append(dict(_m.SIM_UNIT))
